@@ -1283,6 +1283,173 @@ def thread_none_flags(stmts: list[ast.stmt]) -> list[ast.stmt]:
     return block(stmts)
 
 
+def thread_const_flags(stmts: list[ast.stmt], member=None) -> list[ast.stmt]:
+    """if C: ..; v = K1  elif D: ..; v = K2  else: ..; v = K3          if C: ..; v = K1; A
+       if v is K1: A  elif v is K2: B  else: X                   ->    elif D: ..; v = K2; B      else: ..; v = K3; X
+    a decision filed as one of a few constants (True / False, a number, a string, a member of an enumeration whose members are all
+    different) and asked again straight afterwards is the decision itself: the second chain is decided per branch of the first.
+    `member(e)` names the enumeration member an expression stands for (or None)."""
+    def ends(block):
+        if not block:
+            return False
+        s_ = block[-1]
+        if isinstance(s_, (ast.Return, ast.Raise, ast.Continue, ast.Break)):
+            return True
+        if isinstance(s_, ast.If):
+            return bool(s_.orelse) and ends(s_.body) and ends(s_.orelse)
+        return False
+
+    def key(e):
+        if isinstance(e, ast.Constant) and e.value is not None and isinstance(e.value, (bool, int, str)):
+            return ("c", type(e.value).__name__, e.value)
+        if member is not None:
+            try:
+                m = member(e)
+            except Exception:
+                m = None
+            if m is not None:
+                return ("m",) + tuple(m)
+        return None
+
+    def leaves(block, v):
+        if ends(block):
+            return []
+        if not block:
+            return None
+        last = block[-1]
+        if isinstance(last, ast.If) and last.orelse and v in _assigned_names([last]):
+            a, b = leaves(last.body, v), leaves(last.orelse, v)
+            if a is None or b is None:
+                return None
+            return a + b
+        st = None
+        for x in block:
+            if isinstance(x, ast.Assign) and len(x.targets) == 1 and isinstance(x.targets[0], ast.Name) and x.targets[0].id == v:
+                st = x
+            elif v in _assigned_names([x]):
+                return None
+        if st is None:
+            return None
+        k = key(st.value)
+        return [(block, k)] if k is not None else None
+
+    def verdict_leaves(block, v):
+        """the blocks that fall through, each ENDING in `v = <expression>` (its only assignment to v); None when one does not"""
+        if ends(block):
+            return []
+        if not block:
+            return None
+        last = block[-1]
+        if isinstance(last, ast.If) and last.orelse and not any(v in _assigned_names([x]) for x in block[:-1]):
+            a, b = verdict_leaves(last.body, v), verdict_leaves(last.orelse, v)
+            if a is None or b is None:
+                return None
+            return a + b
+        if isinstance(last, ast.Assign) and len(last.targets) == 1 and isinstance(last.targets[0], ast.Name) and last.targets[0].id == v \
+                and not any(v in _assigned_names([x]) for x in block[:-1]):
+            return [block]
+        return None
+
+    def decide(t, v, k):
+        """the truth of test t when v holds the constant k; None when it is not a question about v alone"""
+        if isinstance(t, ast.UnaryOp) and isinstance(t.op, ast.Not):
+            r = decide(t.operand, v, k)
+            return None if r is None else not r
+        if isinstance(t, ast.BoolOp):
+            rs = [decide(x, v, k) for x in t.values]
+            if any(r is None for r in rs):
+                return None
+            return all(rs) if isinstance(t.op, ast.And) else any(rs)
+        if isinstance(t, ast.Name) and t.id == v and k[0] == "c":
+            return bool(k[2])
+        if isinstance(t, ast.Compare) and len(t.ops) == 1:
+            l, r, op = t.left, t.comparators[0], t.ops[0]
+            if isinstance(r, ast.Name) and r.id == v and not (isinstance(l, ast.Name) and l.id == v) and isinstance(op, (ast.Eq, ast.NotEq, ast.Is, ast.IsNot)):
+                l, r = r, l
+            if not (isinstance(l, ast.Name) and l.id == v):
+                return None
+            if isinstance(op, (ast.In, ast.NotIn)) and isinstance(r, (ast.Tuple, ast.List, ast.Set)):
+                ks = [key(x) for x in r.elts]
+                if any(x is None or x[0] != k[0] or (x[0] == "m" and x[1] != k[1]) for x in ks):
+                    return None
+                if k[0] == "c" and any(x[1] != k[1] for x in ks):
+                    return None
+                return (k in ks) == isinstance(op, ast.In)
+            if isinstance(op, (ast.Eq, ast.NotEq, ast.Is, ast.IsNot)):
+                k2 = key(r)
+                if k2 is None or k2[0] != k[0]:
+                    return None
+                if k[0] == "m" and k2[1] != k[1]:
+                    return None
+                if k[0] == "c" and (k2[1] != k[1] or (isinstance(op, (ast.Is, ast.IsNot)) and k[1] != "bool")):
+                    return None       # (True == 1; identity of numbers and strings is not the language's business)
+                return (k == k2) == isinstance(op, (ast.Eq, ast.Is))
+        return None
+
+    def arm_for(s2, v, k):
+        """the statements of chain s2 that run when v holds k; None when its first test is not decided by that"""
+        r = decide(s2.test, v, k)
+        if r is None:
+            return None
+        if r:
+            return s2.body
+        if len(s2.orelse) == 1 and isinstance(s2.orelse[0], ast.If):
+            deeper = arm_for(s2.orelse[0], v, k)
+            return deeper if deeper is not None else s2.orelse
+        return s2.orelse
+
+    def asks(t):
+        """the local a test asks about"""
+        for n in ast.walk(t):
+            if isinstance(n, ast.Name):
+                return n.id
+        return None
+
+    def block(b):
+        b = list(b)
+        for s_ in b:
+            for fld in ("body", "orelse", "finalbody"):
+                bb = getattr(s_, fld, None)
+                if isinstance(bb, list) and bb and isinstance(bb[0], ast.stmt) and not isinstance(s_, (ast.FunctionDef, ast.AsyncFunctionDef, ast.ClassDef)):
+                    setattr(s_, fld, block(bb))
+            if isinstance(s_, ast.Try):
+                for h in s_.handlers:
+                    h.body = block(h.body)
+        i = 0
+        while i + 1 < len(b):
+            s1, s2 = b[i], b[i + 1]
+            if isinstance(s1, ast.If) and s1.orelse and isinstance(s2, ast.If):
+                v = asks(s2.test)
+                live = leaves([s1], v) if v is not None else None
+                t2, neg2 = s2.test, False
+                while isinstance(t2, ast.UnaryOp) and isinstance(t2.op, ast.Not):
+                    t2, neg2 = t2.operand, not neg2
+                if live is None and isinstance(t2, ast.Name) and sum(1 for x in stmts for n in ast.walk(x) if isinstance(n, ast.Name) and n.id == t2.id and isinstance(n.ctx, ast.Load)) == 1:
+                    # if C: ..; v = E1  else: ..; v = E2      followed by   if v: A else: B     (v read nowhere else): the test is asked
+                    # where its operand is computed
+                    ends_ = verdict_leaves([s1], t2.id)
+                    if ends_ and len(ends_) >= 2 and len(ends_) * sum(1 for x in s2.body + s2.orelse for _ in ast.walk(x)) <= 600:
+                        for br in ends_:
+                            e = br.pop().value
+                            if neg2:
+                                e = ast.UnaryOp(op=ast.Not(), operand=e)
+                            br.append(ast.copy_location(ast.If(test=e, body=[copy.deepcopy(x) for x in s2.body], orelse=[copy.deepcopy(x) for x in s2.orelse]), s2))
+                        del b[i + 1]
+                        continue
+                if live and len({k for _, k in live}) >= 2:
+                    arms = [arm_for(s2, v, k) for _, k in live]
+                    if all(a is not None for a in arms) and sum(1 for a in arms for x in a for _ in ast.walk(x)) <= 600:
+                        for (br, _), arm in zip(live, arms):
+                            br.extend(copy.deepcopy(x) for x in arm)
+                        del b[i + 1]
+                        continue
+            i += 1
+        return b
+    if not any(isinstance(s_, ast.If) for s_ in stmts) and not any(isinstance(n, ast.If) for s_ in stmts for n in ast.walk(s_)):
+        return stmts
+    return block(stmts)
+
+
 def fold_none_tests(stmts: list[ast.stmt]) -> list[ast.stmt]:
     """if x is not None: A else: B   with x a number / length / display  ->  A      (and the `is None` twin -> B)"""
     def block(b, known):
